@@ -48,6 +48,9 @@ def gen_case(rng, idx, tier):
                 newruns=(rng.random() < 0.5))
     if opts["other"] == "walls_sub" and periodic0:
         opts["other"] = "harmonic_sub"
+    # several variables, previous-step forces: some of the variables subtract the forces Colvars applied themselves
+    # (subtractAppliedForce), the others leave it to the bias; the samples are the physical forces either way
+    opts["sub_mask"] = [rng.random() < 0.5 for _ in range(nd)] if (nd > 1 and tfm == "prev") else [False] * nd
     T = 70 if tier == "quick" else 160
     dims = []
     names = ["d2", "d3", "d1"][:nd]
@@ -89,13 +92,15 @@ def config(case):
         extra = ""
         if case["other"] in ("harmonic_sub", "walls_sub") and d.name == "d2":
             extra = "  subtractAppliedForce on\n"
+        if case.get("sub_mask") and case["sub_mask"][case["dims"].index(d)]:
+            extra = "  subtractAppliedForce on\n"
         if d.name == "d2":
             cv_extra = "    period 8.0\n" if d.periodic else ""
             cfg += ctl.cv_d2(d.lo, d.hi, d.w, extra=extra, cvc_extra=cv_extra)
         elif d.name == "d3":
-            cfg += ctl.cv_d3(d.lo, d.hi, d.w)
+            cfg += ctl.cv_d3(d.lo, d.hi, d.w, extra=extra)
         else:
-            cfg += ctl.cv_d1(d.lo, d.hi, d.w)
+            cfg += ctl.cv_d1(d.lo, d.hi, d.w, extra=extra)
     cfg += "abf {\n  colvars %s\n  fullSamples %d\n  minSamples %d\n" % (" ".join(d.name for d in case["dims"]), case["full"], case["mn"])
     if case["maxforce"] is not None:
         cfg += "  maxForce %s\n" % " ".join(fnum(case["maxforce"]) for _ in case["dims"])
@@ -226,14 +231,29 @@ def check_case(c, case, ev, sp):
         if not ok:
             offgrid += 1
         s_now = [sv_[t] for sv_ in case["s"]]
-        if (not repeated and case["tfm"] == "prev" and case["other"] in ("harmonic_sub", "walls_sub") and e["rel"] > 0
-                and prev is not None and prev[1][0] + prev[4] == 0.0):
+        zero_k = None
+        zero_set = set()
+        if not repeated and case["tfm"] == "prev" and e["rel"] > 0 and prev is not None:
+            for k_ in range(nd):
+                subk = (case["other"] in ("harmonic_sub", "walls_sub") and k_ == 0) or (case.get("sub_mask") and case["sub_mask"][k_])
+                if subk and prev[1][k_] + prev[4][k_] == 0.0:
+                    zero_k = k_
+                    zero_set.add(k_)
+        if zero_k is not None and nd > 1:
+            # (several variables: the known finding is reported once and the model follows the library -- the sample of that
+            # component is the raw total force, 0 -- so that the rest of the history is still judged)
+            if not case.get("_zero_reported"):
+                case["_zero_reported"] = True
+                c.violation("subtract_skipped_on_exactly_zero_total_force:" + key.split(":other")[0],
+                            "step %d: variable %s: physical force %r + applied force %r = 0 exactly; reported total force %r" % (
+                                t, dims[zero_k].name, prev[1][zero_k], prev[4][zero_k], e["cv"][dims[zero_k].name].get("ft")), [sp], payload={"config": config(case)})
+        elif zero_k is not None:
             # the raw total force on the variable is exactly zero (physical force and Colvars' own
             # force cancel): Colvars decides from ft.norm2() > 0 whether a total force was measured
             # and skips the subtraction of its own force -> keyed separately (known finding)
             c.violation("subtract_skipped_on_exactly_zero_total_force:" + key.split(":other")[0],
-                        "step %d: physical force %r + applied force %r = 0 exactly; reported total force %r" % (
-                            t, prev[1][0], prev[4], e["cv"]["d2"].get("ft")), [sp], payload={"config": config(case)})
+                        "step %d: variable %s: physical force %r + applied force %r = 0 exactly; reported total force %r" % (
+                            t, dims[zero_k].name, prev[1][zero_k], prev[4][zero_k], e["cv"][dims[zero_k].name].get("ft")), [sp], payload={"config": config(case)})
             return False
         if not repeated:
             # accumulation
@@ -251,6 +271,8 @@ def check_case(c, case, ev, sp):
                     cnt[a] += 1
                     for k in range(nd):
                         x = prev[1][k]
+                        if k in zero_set and nd > 1:
+                            x = 0.0
                         if case["other"] == "harmonic" and dims[k].name == "d2":
                             x = x + prev[3]
                         sm[a][k] += x + jac_term(prev[5])
@@ -287,7 +309,7 @@ def check_case(c, case, ev, sp):
                 P = dims[0].hi - dims[0].lo
                 diff -= P * math.floor(diff / P + 0.5)   # shortest image, as documented for periodic variables
             other_f = -(0.5 / (w * w)) * diff
-        fa_obs = fl(e["cv"][dims[0].name]["fa"][0])
+        fa_obs = [fl(e["cv"][d_.name]["fa"][0]) for d_ in dims]
         prev = (ix if ok else None, s_now, pf, other_f, fa_obs, t)
         # stored data
         if sv is not None:
